@@ -140,6 +140,9 @@ def run(ctx):
             for (a, t) in pfl.facts_at(s.bb):
                 if a[0] == "variant" and ((a[2] == "Err") == t) and any(c[0] == "call" and c[1] == OR + "::cache" for c in walk(a[1])):
                     okerr = True
+                elif a[0] == "variant" and ((a[2] == "Err") == t) and ("call:" + OR + "::cache") in Slicer(p.body).sources(a[1], control=False):
+                    # the result travelled through a local shared with another fallible step (`let (result, what) = match ..`)
+                    okerr = True
     if okerr:
         r2.ok("push: cache() failure -> error()", "", loc(p.sp))
     else:
@@ -158,6 +161,7 @@ def run(ctx):
         r2.ok("to_cache copies pkt.data", "AlcPktCache.data = self.data.to_vec()", loc(tc.sp))
     else:
         r2.violation("to_cache copies pkt.data", "the cached copy no longer holds exactly pkt.data: the counter in cache() measures something else", loc(tc.sp))
+    cache_reset_rule(ctx, r2)
     r2.floor(4, "cache facts")
 
     # ---- R5 block allocation limit -----------------------------------------------------------------
@@ -322,6 +326,53 @@ def bound_for(ctx, prog, adt, field, s, m):
         return False, ("the FDT reassembly buffer grows by every block written for TOI 0 with no bound other than the transfer length the "
                        "packets themselves announce (up to 2^48): memory is bounded by traffic, not by configuration")
     return False, "no bound recorded for %s" % short
+
+
+def cache_reset_rule(ctx, rule):
+    """the byte counter of the packet cache only decreases where the cache was emptied (shared by C17.R2 and C04.R6): a reset that can run while
+    packets are still cached makes `cache_size >= max_size_allocated` unreachable and the cache grows with traffic"""
+    prog = ctx.prog
+    n = 0
+    for a in field_accesses(prog, OR, "cache_size"):
+        if a["kind"] != "assign" or a["func"].derived:
+            continue
+        v = a["value"]
+        g = a["func"]
+        if v[0] == "bin" and v[1].replace("WithOverflow", "").startswith("Add"):
+            continue      # growth: C17.R2
+        ex = Slicer(g.body).expand(v)
+        if any(c[0] == "call" and re.search(r"::(checked_add|saturating_add)$", c[1]) for c in walk(ex)) or (ex[0] == "bin" and ex[1].startswith("Add")):
+            continue
+        n += 1
+        key = "%s cache_size = %s" % (g.root().path.split("::")[-1], show(v, 40))
+        fl = Flow(g.body)
+        fs = fl.facts_at(a["bb"])
+        # (a) dominated by the drain loop's exit `self.cache.pop() is None`
+        drained = any(fa[0] == "variant" and fa[2] in ("None", "Some") and ((fa[2] == "None") == t) and
+                      any(c[0] == "call" and re.search(r"Vec::pop$", c[1]) and "self.cache" in show(c[2][0]) for c in walk(fa[1])) for (fa, t) in fs)
+        # (b) preceded on every path by self.cache.clear() / a fresh vector / mem::take, with no push in between
+        clears = set(s_.bb for s_, ai_, mut_ in calls_on_field(prog, OR, "cache", funcs=[g]) if method_name(s_) in ("clear", "drain", "truncate"))
+        clears |= set(x_["bb"] for x_ in field_accesses(prog, OR, "cache", funcs=[g]) if x_["kind"] == "assign" and x_["value"] is not None and
+                      re.search(r"Vec::new\(\)$|vec::from_elem|Vec::with_capacity", show(x_["value"], 80)))
+        # … or by a call of a method of the same object that clears it (self.error(..) / self.complete(..) before a `break`)
+        clearing_fns = set(s_.func.root().path for s_, ai_, mut_ in calls_on_field(prog, OR, "cache") if method_name(s_) in ("clear",))
+        clears |= set(c_.bb for c_ in call_sites(g, lambda p_, cc_: p_ in clearing_fns and p_ != g.path))
+
+        def emptied(n_):
+            if n_[0] == "b":
+                return n_[1] in clears and n_[1] != a["bb"]
+            return any(fa[0] == "variant" and fa[2] in ("None", "Some") and ((fa[2] == "None") == t) and
+                       any(c[0] == "call" and re.search(r"Vec::pop$", c[1]) and "self.cache" in show(c[2][0]) for c in walk(fa[1])) for (fa, t) in fl.edge_facts(n_))
+        cleared = a["bb"] != 0 and fl.must_pass(0, [a["bb"]], emptied)[0]     # (in the entry block nothing precedes the reset)
+        same_blk = any(c_ == a["bb"] for c_ in clears)
+        if not (v[0] == "const" and v[2] == 0):
+            rule.violation(key, "cache_size is set to %s: the counter may only grow by the length of a cached packet or be reset to 0 with the cache" % show(v, 60), loc(a["sp"]))
+        elif drained or cleared or same_blk:
+            rule.ok(key, "after the cache was emptied (%s)" % ("drain loop left on pop() == None" if drained else "cache.clear()"), loc(a["sp"]))
+        else:
+            rule.violation(key, "the byte counter of the packet cache is reset on a path where the cache was not emptied: the limit `cache_size >= "
+                                "max_size_allocated` never fires again and the cache grows with every packet received before the OTI is known", loc(a["sp"]))
+    return n
 
 
 def fdt_retain_rule(ctx, r3, reach=None):
